@@ -6,22 +6,26 @@ from ..core import HEADER, CASE_TYPE, CHECK, MODEL_VIEW, SHARD, CASE_TIMEOUT, ob
 
 ID = "C03"
 THEOREMS = ["C03_conservation", "C03_offsets_step", "C03_star_eq", "C03_at_eq_no_flush", "C03_run_conservation",
-            "C03_run_offsets"]
+            "C03_run_offsets", "C03_writer_protocol", "C03_writer_protocol_offsets", "C03_writer_protocol_initial"]
 RULE = ("generated programs with frequent *= / @= moves (ROM and RAM targets), bank crossings, LoROM/HiROM/low2 and "
         "user .map configurations; the emission trace (run address, resolver.pc, bytes per node) is recorded by wrapping "
         "emit; non-trivial: assembles and emits bytes; distinct by source text")
 PROVED_NOTE = ("proved: conservation of bytes per step and over whole runs (writer blocks + open block = all node bytes in "
                "order); whole runs of non-position nodes stay in step across any number of bank ends; the in-step invariant (file offset of the next byte = offset the "
                "mapping assigns to the run address) is preserved by every non-position node incl. bank crossings (uses the "
-               "C04 advance law) and re-established by *=; @= does not flush. Correspondence-only: the flush protocol of "
-               "Program.emit as a whole is compared with an independent cutter (cut_spec) on the implementation's trace.")
+               "C04 advance law) and re-established by *=; @= does not flush. THE WHOLE PROTOCOL: for every node list and start "
+               "state the model's writer blocks ARE the independent cutter (Oracle/Coreo.v cut_spec, the very function the run-time "
+               "oracle applies to the implementation's trace) applied to the model's emission trace, offsets are contiguous (pcs_ok), "
+               "and on the built-in buses every unrelocated ROM byte lies at the offset of its run address (offsets_ok) for programs "
+               "that begin with *= and emit no unrelocated bytes at RAM addresses. Correspondence-only: that program.py computes "
+               "what the model computes.")
 MANIFEST = {
     "text": ("Coq theorems over the Gallina model of Program.emit / Resolver.set_position (all programs: step invariants); "
              "model tied to the code by differential runs; oracle on the implementation's own trace: writer calls = the "
              "independent cutter applied to the per-node bytes, every unrelocated ROM byte at the textbook LoROM/HiROM "
              "offset of its run address, offsets contiguous."),
     "note": "Trusted: Coq kernel/vm_compute, harness (method wrappers), table translator, CPython semantics as modelled. No axioms.",
-    "technique": "Coq proof (step invariants) + differential correspondence with vm_compute + trace oracle",
+    "technique": "Coq proof (step invariants, model satisfies the writer-protocol oracle) + differential correspondence with vm_compute + trace oracle",
 }
 
 MAPS = [
